@@ -22,7 +22,8 @@ QUICK_N = 40000
 THOROUGH_N = 900000
 CHUNK = 400
 RULE = ("gen(seed): 1..8 fetches (method, body, header sets built with HTTPHeaders.add, URL "
-        "credentials, auth_username, timeouts on a per-run time scale, max_redirects) submitted at "
+        "credentials, auth_username, timeouts on a per-run time scale, max_redirects; 12% with "
+        "allow_nonstandard_methods: GET/DELETE/OPTIONS/QUERY with a body, POST without) submitted at "
         "generated instants to one client with max_clients 1..3; per fetch a chain of hops "
         "(target kind, Location form, redirect code, connect outcome/delay, response kind/delay, "
         "DNS delay/failure/never answering, or an 'odd' last hop whose Location urllib rejects or "
@@ -243,6 +244,13 @@ def gen(rng, tier, index):
             # failing single-hop fetches must not occupy a slot for 20 s
             if f["request_timeout"] is None:
                 f["request_timeout"] = 16 * scale
+        if rng.random() < 0.12:
+            # allow_nonstandard_methods: any method may carry a body (or a POST none)
+            f["nonstd"] = True
+            f["method"] = rng.choice(["GET", "GET", "GET", "DELETE", "OPTIONS", "QUERY", "POST"])
+            f["has_body"] = rng.random() < (0.5 if f["method"] == "POST" else 0.8)
+            f["body"] = rng.choice([0, 1, 20, 300])
+            f["body_type"] = rng.random() < 0.6
         fetches.append(f)
     tapes = {}
     if rng.random() < 0.35:
@@ -271,7 +279,8 @@ def validate(scn):
         if not fs or len(fs) > 9:
             return False
         for f in fs:
-            if f.get("method") not in ("GET", "POST", "HEAD", "PUT"):
+            if f.get("method") not in ("GET", "POST", "HEAD", "PUT") and not (
+                    f.get("nonstd") and f.get("method") in ("DELETE", "OPTIONS", "QUERY")):
                 return False
             if any(h.get("to") == "odd" for h in f["hops"][:-1]):
                 return False
@@ -313,6 +322,24 @@ def _client_class():
 
 def _units(v):
     return None if v is None else max(1, v) * UNIT
+
+
+def _dechunk(data):
+    """Body of a chunked request as sent by the client (well-formed by construction)."""
+    out = bytearray()
+    pos = 0
+    while True:
+        eol = data.find(b"\r\n", pos)
+        if eol < 0:
+            return bytes(out)
+        try:
+            n = int(data[pos:eol], 16)
+        except ValueError:
+            return bytes(out)
+        if n == 0:
+            return bytes(out)
+        out += data[eol + 2:eol + 2 + n]
+        pos = eol + 2 + n + 2
 
 
 def _parse_path(path):
@@ -451,7 +478,11 @@ def run(scn, full_log=False):
                         cl = int(ln[15:].strip())
                     except ValueError:
                         cl = 0
-            await peer.wait_bytes(idx + 4 + cl)
+            chunked = b"\r\ntransfer-encoding: chunked\r\n" in head.lower()
+            if chunked:
+                await peer.wait_for(b"0\r\n\r\n", idx + 4)
+            else:
+                await peer.wait_bytes(idx + 4 + cl)
             raw = bytes(peer.received)
             method = rl[0].decode("latin1")
             ij = _parse_path(rl[1].decode("latin1")) if len(rl) > 1 else None
@@ -464,7 +495,8 @@ def run(scn, full_log=False):
             i, j = ij
             received.setdefault(ij, []).append({"raw": raw, "ip": key[0], "port": key[1],
                                                 "method": method, "head": head,
-                                                "body": raw[idx + 4:]})
+                                                "body": _dechunk(raw[idx + 4:]) if chunked
+                                                else raw[idx + 4:]})
             hop = fetches[i]["hops"][j]
             d = hop.get("delay", 0)
             if d:
@@ -667,6 +699,12 @@ def run(scn, full_log=False):
                 body = None
                 if method in ("POST", "PUT"):
                     body = b"B%d-" % i + b"z" * max(0, f.get("body") or 0)
+                if f.get("nonstd"):
+                    kw["allow_nonstandard_methods"] = True
+                    body = (b"B%d-" % i + b"z" * max(0, f.get("body") or 0)) \
+                        if f.get("has_body") else None
+                    if body is not None and f.get("body_type") and not f.get("hdr_dict"):
+                        headers.add("Content-Type", "text/x-body%d" % i)
                 req = HTTPRequest("http://%s/f%d/h0" % (netloc, i), method=method,
                                   headers=headers, body=body, **kw)
                 fut = client.fetch(req, raise_error=False)
@@ -855,14 +893,23 @@ def run(scn, full_log=False):
                     if rewrite:
                         probe("redirect_rewrites_to_get")
                         hl = rq["head"].lower()
+                        if prev_reqs[-1]["body"]:
+                            probe("redirect_rewrites_request_with_body_%d_%s" % (prev_code, pm))
                         if rq["method"] != "GET" or rq["body"] or b"\r\ntransfer-encoding:" in hl \
                                 or (b"\r\ncontent-length:" in hl
                                     and b"\r\ncontent-length: 0\r\n" not in hl):
                             bad("c09.redirect_not_rewritten_to_bodiless_get",
-                                f"fetch {i}: {prev_code} after {pm} was followed by "
+                                f"fetch {i}: {prev_code} after {pm} "
+                                f"({len(prev_reqs[-1]['body'])} body bytes) was followed by "
                                 f"{rq['method']} with {len(rq['body'])} body bytes "
-                                f"(headers {rq['head'][:120]!r})",
+                                f"(headers {rq['head'][:160]!r})",
                                 f"c09.redirect_not_rewritten_to_bodiless_get/{prev_code}/{pm}")
+                        elif b"\r\ncontent-type: text/x-body" in hl:
+                            bad("c09.redirect_not_rewritten_to_bodiless_get",
+                                f"fetch {i}: {prev_code} after {pm}: the bodiless GET still "
+                                f"carries the body's Content-Type",
+                                f"c09.redirect_not_rewritten_to_bodiless_get/{prev_code}/{pm}"
+                                f"/content_type_kept")
                     elif prev_code in (307, 308):
                         probe("redirect_preserves_method")
                         if rq["method"] != pm or rq["body"] != prev_reqs[-1]["body"]:
